@@ -1,7 +1,8 @@
 /-
   C17 — Accessory and instance identifiers are unique, stable and consistently resolved.
   Property theorems only; lemmas live in Proofs/Iid.lean, Proofs/DbAid.lean, Proofs/DbIds.lean,
-  Proofs/DbStep.lean, Proofs/DbResolve.lean, Proofs/DbTable.lean.
+  Proofs/DbStep.lean, Proofs/DbResolve.lean, Proofs/DbUncached.lean, Proofs/DbTable.lean
+  (and Proofs/DbLift.lean for the link to the cached rendering).
 
   Models: HapModel/Iid.lean (`IIDManager`), HapModel/Db.lean (accessories, the bridge's aid
   assignment, rendering, the three resolution paths).  Objects are opaque identities allocated
@@ -10,6 +11,8 @@
   `remove_iid` on any accessory's manager with any argument.
 -/
 import Proofs.DbResolve
+import Proofs.DbUncached
+import Proofs.DbLift
 import Proofs.DbTable
 import HapModel.Gen.Services
 namespace Hap.C17
@@ -187,6 +190,31 @@ theorem C17_resolution_all_histories (isBridge : Bool) (defs : List (SvcDef V P)
     s.eventId c = some (some aid, some iid) :=
   resolve_listed _ (C17_invariant isBridge defs ops) aid iid c h
 
+/-- **No exception escapes, nothing is cached.** After any construction history no operation
+    lets a KeyError out of the paired dict updates (`del self.objs[iid]` / `del self.iids[obj]`
+    always find their key), and no characteristic has a cached representation. -/
+theorem C17_construction_clean (isBridge : Bool) (defs : List (SvcDef V P)) (ops : List (Op V P))
+    (op : Op V P) :
+    (((Db.init isBridge defs).run ops).step op).2 ≠ .keyError ∧
+    ((Db.init isBridge defs).run ops).Uncached :=
+  have hg := run_good _ ops (init_good isBridge defs)
+  have hu := run_uncached _ ops (init_good isBridge defs) (init_uncached isBridge defs)
+  ⟨(step_uncached _ op hg hu).2, hu⟩
+
+/-- Hence the document GET /accessories serves after a construction history (computed through
+    the caches, as the code does) is the from-scratch rendering to which `C17_listed_once`
+    and `C17_resolution` refer. -/
+theorem C17_served_rendering (isBridge : Bool) (defs : List (SvcDef V P)) (ops : List (Op V P))
+    (incl : Bool) (g : Nat → Option V) :
+    (((Db.init isBridge defs).run ops).renderCached incl g).1 =
+    (((Db.init isBridge defs).run ops).render incl g).1 := by
+  have hu := run_uncached _ ops (init_good isBridge defs) (init_uncached isBridge defs)
+  refine (Db.renderCached_spec _ incl g ?_).1
+  intro a ha sv hsv c hc
+  rw [Db.accList_eq, List.mem_map] at ha
+  obtain ⟨ka, hka, rfl⟩ := ha
+  obtain ⟨h1, h2⟩ := hu ka hka sv hsv c hc
+  exact ⟨Or.inl h2, Or.inl h1⟩
 /-- construction never fills a representation cache, so the state after a construction
     history satisfies C11's cache invariant trivially (C17 histories are observed at the end) -/
 theorem C17_fresh_service_uncached (o : Nat) (d : SvcDef V P) :
